@@ -1474,6 +1474,13 @@ class LazyStackedTensorDict(TensorDictBase):
 
     @cache  # noqa: B019
     def _remove_batch_dim(self, vmap_level, batch_size, out_dim):
+        if out_dim < 0:
+            # a negative out_dim is relative to the output (one more batch dimension)
+            out_dim = out_dim + self.batch_dims + 1
+        if not 0 <= out_dim <= self.batch_dims:
+            raise IndexError(
+                f"out_dim out of range for a tensordict output with {self.batch_dims} batch dimensions."
+            )
         if self.hook_out is not None:
             # this is the hacked version. We just need to remove the hook_out and
             # reset a proper batch size
@@ -1514,6 +1521,13 @@ class LazyStackedTensorDict(TensorDictBase):
 
     @cache  # noqa: B019
     def _maybe_remove_batch_dim(self, funcname, vmap_level, batch_size, out_dim):
+        if out_dim < 0:
+            # a negative out_dim is relative to the output (one more batch dimension)
+            out_dim = out_dim + self.batch_dims + 1
+        if not 0 <= out_dim <= self.batch_dims:
+            raise IndexError(
+                f"out_dim out of range for a tensordict output with {self.batch_dims} batch dimensions."
+            )
         if self.hook_out is not None:
             # this is the hacked version. We just need to remove the hook_out and
             # reset a proper batch size
